@@ -1,8 +1,51 @@
-"""C09 - edit-batch property: generators in harness/editrun.py, oracle + region classification in harness/props/_judges.py,
-model correspondence in harness/editrun.py (Engine.apply_edits extracted from Coq), theorems in coq/Props/C09.v"""
+"""C09 - saved output is structurally valid revision and comment markup. Edit batches: generators in harness/editrun.py, oracle +
+region classification in harness/props/_judges.py, model correspondence (Engine.apply_edits extracted from Coq), theorems in
+coq/Props/C09.v. Review rounds (ACCEPT / REJECT / REPLY by id on documents with pending changes, multi-run deletions with
+several w:delText) are validated structurally as well: "every saved output"."""
+import json, random
+from multiprocessing import Pool
+from harness import core, absdoc as A, docgen, docrun
 from harness.props import _edits, _judges as J
 PID = 'C09'
+
+def review_work(job):
+    b, acts = job
+    try:
+        ap, sk, out = docrun.engine_review(b, acts, 'Reviewer Z')
+        return {'err': None, 'ap': ap, 'sk': sk, 'new': [i for i in docrun.struct_issues(out) if i not in set(docrun.struct_issues(b))]}
+    except Exception as ex:
+        return {'err': '%s: %s' % (type(ex).__name__, ex)}
+def gen_actions(rng, b, d):
+    ids = sorted({i for part, l in docrun.rev_ids_by_part(b).items() for k, i, a, dt in l if i})
+    acts = []
+    for _ in range(rng.randint(1, 3)):
+        x = rng.random()
+        if x < .8 and ids: acts.append((rng.choice(['ACCEPT', 'REJECT', 'REJECT']), rng.choice(['Chg:', '']) + rng.choice(ids), None))
+        elif d['comments']: acts.append(('REPLY', 'Com:' + rng.choice(d['comments'])['id'], 'noted'))
+    return acts
+def review_rounds(ck, rng, tier):
+    docs = [docgen.gen_doc(rng, 'full') for _ in range(150 if tier == 'quick' else 3000)]
+    jobs = []
+    for d in docs:
+        b = A.build(d); acts = gen_actions(rng, b, d)
+        if acts: jobs.append((d, b, acts))
+    with Pool(core.NPROC, initializer=docrun.impl_init) as pool:
+        res = pool.map(review_work, [(b, a) for d, b, a in jobs], chunksize=8)
+    n = 0
+    for (d, b, acts), r in zip(jobs, res):
+        ck.count(); n += 1
+        case = {'doc': A.doc_core(d), 'actions': [list(a) for a in acts]}
+        if r['err']: ck.violation('oracle', case, 'review round raised ' + r['err'])
+        elif r['new']: ck.violation('oracle', case, 'the output of a review round is not structurally valid: ' + r['new'][0])
+    ck.cov.setdefault('input_distribution', {})['review_rounds_validated'] = n
 def run(tier, seed):
-    return _edits.run_property(PID, tier, seed, ['Props/C09.v'], ('exact','mixed','blocks'), J.judge_C09, 'every saved output of the explored batches is validated structurally (well-formed parts, unique ids per part, no nesting, delText only in w:del, comment range/reference/entry consistency, relationship targets and content types)')
+    return _edits.run_property(PID, tier, seed, ['Props/C09.v'], ('exact','mixed','blocks'), J.judge_C09, 'every saved output of the explored batches and of review rounds (ACCEPT / REJECT / REPLY by id) is validated structurally (well-formed parts, unique ids per part, no nesting, delText only in w:del, comment range/reference/entry consistency, relationship targets and content types)', after=review_rounds)
 def replay(path):
+    c0 = json.load(open(path))['case']
+    if 'actions' in c0:
+        d = c0['doc']; d.setdefault('features', []); docrun.impl_init()
+        r = review_work((A.build(d), [tuple(a) for a in c0['actions']]))
+        print(r)
+        if r['err'] or r['new']: print('VIOLATION property=%s replay=%s' % (PID, path)); return 1
+        print('property holds on this input'); return 0
     return _edits.replay_case(path, J.judge_C09, PID)
